@@ -65,6 +65,9 @@ type Case struct {
 	// Empty: the committed tree holds no route at all when the writer opens its transaction ("fresh": nothing was ever
 	// registered, "truncated": everything was registered and then removed by a committed Truncate)
 	Empty string `json:"empty,omitempty"`
+	// Verbs: that many verbs other than GET/POST/PUT/DELETE have routes in the committed tree (their roots come and go with
+	// their routes, unlike the four that always have one)
+	Verbs int `json:"verbs,omitempty"`
 }
 
 var stages = []string{"opened", "after-writes", "inside-updates", "after-iter", "after-snapshot"}
@@ -257,6 +260,10 @@ func build(c *Case) (*fox.Router, error) {
 	if c.Hostnames {
 		pre = "{sub}.example.com"
 		f.MustHandle("GET", "other.example.com/static", h)
+	}
+	for _, v := range []string{"PATCH", "HEAD", "PROPFIND"}[:min(c.Verbs, 3)] {
+		f.MustHandle(v, pre+"/static", h)
+		f.MustHandle(v, pre+"/r/{id}/x", h)
 	}
 	f.MustHandle("GET", pre+"/r/{id}/x", h)
 	f.MustHandle("GET", pre+"/static", h)
@@ -647,6 +654,7 @@ func genCase(t *rapid.T) *Case {
 		Resolver: gen.Chance(t, 1, 2, "res"), Middleware: gen.IntR(t, 0, 3, "mw"), Hostnames: gen.Chance(t, 1, 3, "hosts"),
 		Deep:  gen.Pick(t, []int{0, 0, 8, 24, 25, 26, 40, 120}, "deep"),
 		Empty: gen.Pick(t, []string{"", "", "", "fresh", "truncated", "partly"}, "empty"),
+		Verbs: gen.Pick(t, []int{0, 0, 1, 2, 3}, "verbs"),
 	}
 }
 
@@ -663,7 +671,8 @@ func TestMatrix(t *testing.T) {
 	for _, st := range stages {
 		for _, c := range []*Case{{Stage: st, Writes: 3}, {Stage: st, Writes: 5, TS: rt.TSRedirect, NoMethod: true, AutoOptions: true, Resolver: true, Middleware: 2, Hostnames: true},
 			{Stage: st, Writes: 3, Deep: 40}, {Stage: st, Writes: 2, TS: rt.TSIgnore, Hostnames: true, Deep: 64},
-			{Stage: st, Writes: 3, Empty: "fresh", NoMethod: true, AutoOptions: true}, {Stage: st, Writes: 2, Empty: "truncated", Deep: 8}, {Stage: st, Writes: 2, Empty: "partly", Hostnames: true}} {
+			{Stage: st, Writes: 3, Empty: "fresh", NoMethod: true, AutoOptions: true}, {Stage: st, Writes: 2, Empty: "truncated", Deep: 8}, {Stage: st, Writes: 2, Empty: "partly", Hostnames: true},
+			{Stage: st, Writes: 2, Verbs: 2}, {Stage: st, Writes: 3, Verbs: 3, Hostnames: true, NoMethod: true, AutoOptions: true}} {
 			stats.Sample(c)
 			if err := checkCase(c, true); err != nil {
 				fail(t, c, err)
